@@ -87,7 +87,7 @@ int main(int argc, char **argv) {
     if (!r.empty()) fprintf(stderr, "replay: %s | %s\n", r.c_str(), TRACE.c_str());
     return r.empty() ? 0 : 3;
   }
-  uint64_t n = a.thorough() ? 20000 : 1200;
+  uint64_t n = a.thorough() ? 100000 : 1200;
   if (a.kv.count("cases")) n = strtoull(a.kv["cases"].c_str(), 0, 10);
   std::string params = "seed=" + std::to_string(a.seed * 1000 + a.worker) + " max_success=" + std::to_string(n) + " max_size=100";
   setenv("RC_PARAMS", params.c_str(), 1);
